@@ -8,6 +8,7 @@ structure St where
   nworkers : Nat := 0
   initYields : Nat := 0
   jobs : List (Nat × List Act) := []
+  dtors : List (Nat × List Act) := []
   clients : List (List Act) := []
   mainCalls : List Act := []
   lastResolved : Array Nat := #[]
@@ -28,6 +29,7 @@ def parseAct (inJob : Bool) (tok : String) : Option Act :=
 def cfgOf (s : St) : Cfg :=
   { nworkers := s.nworkers, initYields := s.initYields,
     prog := fun code => ((s.jobs.reverse.find? (·.1 == code)).map (·.2)).getD [],
+    dprog := fun code => ((s.dtors.reverse.find? (·.1 == code)).map (·.2)).getD [],
     clients := s.clients, mainCalls := s.mainCalls }
 
 def countOcc (l : List Nat) (x : Nat) : Nat := (l.filter (· == x)).length
@@ -65,9 +67,13 @@ def step (s : St) (ts : List String) : St × String :=
       if 1 ≤ k ∧ k ≤ 8 ∧ y ≤ 8 then ({ s with nworkers := k, initYields := y }, "ok") else (s, "bad-op")
     | _, _ => (s, "bad-op")
   | "job" :: code :: acts =>
-    match parseCode code, acts.mapM (parseAct true) with
-    | some c, some body => ({ s with jobs := s.jobs ++ [(c, body)] }, "ok")
-    | _, _ => (s, "bad-op")
+    let body := acts.takeWhile (· ≠ "~")
+    let dt := (acts.dropWhile (· ≠ "~")).drop 1
+    let dtorOk : Act → Bool := fun a => match a with | .enq _ | .obsDone | .obsIdle => true | _ => false
+    match parseCode code, body.mapM (parseAct true), dt.mapM (parseAct true) with
+    | some c, some b, some d =>
+      if d.all dtorOk then ({ s with jobs := s.jobs ++ [(c, b)], dtors := s.dtors ++ [(c, d)] }, "ok") else (s, "bad-op")
+    | _, _, _ => (s, "bad-op")
   | "client" :: calls =>
     match calls.mapM (parseAct false) with
     | some cs => if s.clients.length < 8 then ({ s with clients := s.clients ++ [cs] }, "ok") else (s, "bad-op")
